@@ -161,6 +161,17 @@ func (r *Run) Case(name string, fn func(c *Case)) {
 	r.runCase(name, false, fn)
 }
 
+// EveryShard runs fn as a case in every shard process (named name/shard-i):
+// for what can only be observed once per process, such as the first use of
+// something that initialises itself lazily.
+func (r *Run) EveryShard(name string, fn func(c *Case)) {
+	name = fmt.Sprintf("%s/shard-%02d", name, r.Shard)
+	if r.only != nil && !r.only.MatchString(name) {
+		return
+	}
+	r.runCase(name, false, fn)
+}
+
 // Bubble is Case with the body running inside a synctest bubble (virtual
 // time, quiescence detection).
 func (r *Run) Bubble(name string, fn func(c *Case)) {
